@@ -25,6 +25,12 @@ type HarnessSpec struct {
 	TimeoutMs    int
 	OpaqueStrMax int
 	ReplayEnv    []string
+	// Tier 3 (JIT instruction lists): dump name, check name and its parameters
+	Asm      string
+	T3       string
+	T3Bits   int
+	T3Signed bool
+	T3Native string
 }
 
 func allHarnesses() []HarnessSpec {
@@ -146,6 +152,30 @@ var registry = []HarnessSpec{
 	{Prop: "C04", Pkg: mod + "/internal/encoder/alg", PkgName: "alg", Func: "VerifC20HtmlEscapeRestarts", Tier: "quick", Covers: []string{"end"},
 		Desc:   "the EscapeHTML post-pass never truncates or duplicates parts of the document when its buffer has to grow more than once",
 		Bounds: "N in {7,20,48,100}"},
+	// ---- Tier 3: instruction lists emitted by the JIT assemblers (dumped at check time) ----
+	{Prop: "C01", Pkg: mod, PkgName: "sonic", Func: "VerifT3Replay", Tier: "quick", Covers: []string{"lspace-done"},
+		Asm: "dec_int64", T3: "lspace", ReplayEnv: []string{"VERIF_T3_TYPE=int64"},
+		Desc:    "generated decoder (type int64): the inline white-space skipper of _OP_lspace skips exactly JSON white space and stops at the first other byte, for every input and start offset",
+		Bounds:  "instruction list dumped from jitdec for int64; inputs of 0..6 bytes over {space,\\t,\\n,1,I,`,comma,0xA0} (bytes that alias white space modulo 64 included), every start offset, native lspace modelled exactly",
+		Assumes: []string{"the dumped obj.Prog list is what golang-asm assembles (the assembler back end itself is trusted)", "plan9 x86 semantics of the ~55 mnemonics the JIT uses, as implemented in engine/gosym/asm.go"}},
+	{Prop: "C02", Pkg: mod, PkgName: "sonic", Func: "VerifT3Replay", Tier: "quick", Covers: []string{"lspace-done"},
+		Asm: "dec_slice_int", T3: "lspace", ReplayEnv: []string{"VERIF_T3_TYPE=slice_int"},
+		Desc:   "generated decoder (type []int): no byte other than JSON white space is treated as insignificant between tokens (first _OP_lspace)",
+		Bounds: "as the C01 lspace check, on the []int program"},
+	{Prop: "C19", Pkg: mod, PkgName: "sonic", Func: "VerifT3Replay", Tier: "quick", Covers: []string{"range-error", "stored"},
+		Asm: "dec_float32", T3: "f32range", ReplayEnv: []string{"VERIF_T3_TYPE=float32", "VERIF_T3_KIND=double"},
+		Desc:    "generated float32 decoder: a parsed double is accepted exactly when its correctly rounded float32 is finite and that value is stored (CVTSD2SS/UCOMISS with the dumped range constants; SMT floating-point theory)",
+		Bounds:  "instruction list dumped for float32; all finite doubles as the native number parser's result",
+		Assumes: []string{"native vnumber returns V_DOUBLE with an arbitrary finite double (its own exactness is declined, see DESIGN 3.19)"}},
+	{Prop: "C19", Pkg: mod, PkgName: "sonic", Func: "VerifT3Replay", Tier: "quick", Covers: []string{"range-error", "stored"},
+		Asm: "dec_int8", T3: "intrange", T3Bits: 8, T3Signed: true, T3Native: "native.vsigned", ReplayEnv: []string{"VERIF_T3_TYPE=int8", "VERIF_T3_KIND=integer"},
+		Desc:   "generated int8 decoder: stores exactly the parsed integer when -128..127, range error otherwise (no wrap)",
+		Bounds: "instruction list dumped for int8; all 2^64 results of native vsigned"},
+	{Prop: "C19", Pkg: mod, PkgName: "sonic", Func: "VerifT3Replay", Tier: "quick", Covers: []string{"range-error", "stored"},
+		Asm: "dec_uint32", T3: "intrange", T3Bits: 32, T3Signed: false, T3Native: "native.vunsigned", ReplayEnv: []string{"VERIF_T3_TYPE=uint32", "VERIF_T3_KIND=integer", "VERIF_T3_UNSIGNED=1"},
+		Desc:   "generated uint32 decoder: stores exactly the parsed integer when < 2^32, range error otherwise",
+		Bounds: "instruction list dumped for uint32; all 2^64 results of native vunsigned"},
+
 	{Prop: "C13", Pkg: mod + "/internal/native", PkgName: "native", Func: "VerifC13Dispatch", Tier: "quick", Covers: []string{"end"},
 		Desc:    "dispatch wiring: useSSE()/useAVX2() bind each of the 17 subroutine addresses and 15 Go entry points to the same-named symbol of the selected package",
 		Bounds:  "both instruction-set selections; every exported symbol carries a unique marker",
